@@ -25,10 +25,19 @@ type StrVal struct {
 type AbsStr struct {
 	Ctor string
 	Args []*smt.Term
+	// table token ("tbl#<object>"): the string is Tbl[Args[0]], entries pairwise distinct, non-empty, without spaces
+	Tbl []string
+	// join ("join:<sep>"): Parts joined by the separator; no part is empty or contains the separator
+	Parts []StrVal
 	// bech32 only: the text is Hrp + "1" + one character per 5-bit group + 6 checksum characters, and the
 	// data characters never contain '1'
 	Hrp string
 }
+
+// LazyBytes: the minimal big-endian bytes of a non-negative big value whose length has not been decided yet
+// (Config.LazyBigBytes). It flows through calls, stores and returns; any other use forces it into a slice by
+// forking on the length.
+type LazyBytes struct{ T *smt.Term }
 
 // AbsLen: length of an abstract string when its encoder fixes it (-1 otherwise).
 func (a *AbsStr) AbsLen() int {
